@@ -5,7 +5,7 @@ COMMON_ASSUMPTIONS = [
     "float / np.float64 = extended real line with NaN (fin|+inf|-inf|nan): IEEE rules for special values, EXACT arithmetic "
     "on finite values; rounding, overflow to inf, underflow and signed zero are NOT modelled (machine arithmetic treated as mathematical)",
     "numpy fragment (cumsum, cumprod, insert, arange, slices, mask / index assignment, minimum, maximum, isclose, isfinite, "
-    "sum, mean, max, argmax, tile, repeat, append, sqrt) is axiomatised in /verif/pyvc/npmodel.py: assumed contracts on a dependency",
+    "sum, mean, max, argmax, tile, repeat, append, sqrt) is axiomatised in /verif/pyvc/npmodel.py: assumed contracts on a dependency (audited on concrete inputs against real numpy by tools/conformance.py, results in conformance/RESULTS.txt; not proved)",
     "termination of loops is not proved",
     "the verification-condition generator /verif/pyvc (our own ast -> z3 symbolic executor) is trusted; it is audited by "
     "seeded property-breaking changes (/verif/seeded) and by native replay of every counter-model, not verified",
